@@ -124,3 +124,24 @@ fn c09_raw16_flip_2x2() {
         Err(e) => { forget(e); assert!(false, "a well-sized raw image decodes"); }
     }
 }
+
+/// interleaved RLE through the dispatcher: 16 bpp compressed 2x2, COLOR_RUN of 4 with a symbolic colour:
+/// Ok with exactly 16 bytes, every pixel the exactly widened colour
+#[kani::proof]
+#[kani::unwind(12)]
+fn c08_rle16_disp_2x2_tpl() {
+    let c: u16 = kani::any();
+    let bytes = [0x64u8, c as u8, (c >> 8) as u8];
+    let ev = BitmapEvent { dest_left: 0, dest_top: 0, dest_right: 1, dest_bottom: 1, width: 2, height: 2, bpp: 16, is_compress: true, data: mkdata(&bytes) };
+    match ev.decompress() {
+        Ok(v) => {
+            assert!(v.len() == 16, "decompress returns exactly width*height*4 bytes");
+            let w = widen(c);
+            let mut i = 0;
+            while i < 4 { assert!(v[i * 4] == w[0] && v[i * 4 + 1] == w[1] && v[i * 4 + 2] == w[2] && v[i * 4 + 3] == w[3], "every pixel is the widened run colour"); i += 1; }
+            kani::cover!(c == 0xf800, "pure red");
+            forget(v);
+        }
+        Err(e) => { forget(e); assert!(false, "conformant stream decodes"); }
+    }
+}
